@@ -1,1 +1,558 @@
 package rules
+
+import (
+	"fmt"
+	"go/token"
+	"go/types"
+	"strings"
+
+	"golang.org/x/tools/go/ssa"
+
+	"verif/checker/eng"
+)
+
+func init() {
+	register(&Property{
+		ID:    "C10",
+		Level: "other",
+		Explanation: "Decided (structural necessary conditions): (R10.1) every configuration method of *Extractor returns a value derived from clone() and neither writes through its receiver nor appends onto a slice owned by it; (R10.2) clone functions copy every field and rebuild reference-holding fields; (R10.4) every exported method that opens the reader, except the documented non-terminal ones, defers Close on every path after the open succeeds; (R10.5) every file/zip acquisition is closed on each error return and handed to the returned owner on success, and Close methods clear what they test; (R10.6) page numbers reaching the result of resolvePages passed the range check, are de-duplicated and sorted; (R10.7) the page number stamped on a model page survives AddPage. " +
+			"Not decided: that a selection yields exactly the per-page results (needs C01), descriptor counts at run time, the per-page join rule.",
+		Rules: []func(*eng.Ctx){ruleBuilderPurity, ruleCloneComplete, ruleTerminalClose, ruleResourcePairing, rulePageRange, rulePageStamp},
+	})
+}
+
+func extractorMethods(p *eng.Prog) []*ssa.Function {
+	var out []*ssa.Function
+	for _, fn := range p.ModuleFuncs() {
+		if fn.Parent() != nil || fn.Signature.Recv() == nil {
+			continue
+		}
+		if eng.TypeName(fn.Signature.Recv().Type()) != "*tabula.Extractor" {
+			continue
+		}
+		out = append(out, fn)
+	}
+	return out
+}
+
+func isExported(name string) bool { return name != "" && name[0] >= 'A' && name[0] <= 'Z' }
+
+// R10.1
+func ruleBuilderPurity(c *eng.Ctx) {
+	const R = "R10.1-BUILDER-PURITY"
+	c.Rule(R, "configuration methods (*Extractor -> *Extractor) return a value derived from e.clone() and do not write through e (stores, map updates, copy/append onto receiver-owned slices, callees that write through it)", 9, 0)
+	eff := eng.EffectsOf(c.P)
+	clone := c.P.Func("tabula.(*Extractor).clone")
+	if clone == nil {
+		c.Undec(R, "tabula.(*Extractor).clone", token.NoPos, "anchor not found")
+		return
+	}
+	for _, fn := range extractorMethods(c.P) {
+		res := fn.Signature.Results()
+		if !isExported(fn.Name()) || res.Len() != 1 || eng.TypeName(res.At(0).Type()) != "*tabula.Extractor" {
+			continue
+		}
+		name := eng.FuncName(fn)
+		// returns derived from clone()
+		okRet := true
+		for _, r := range eng.Returns(fn) {
+			sl := eng.Slice(r.Results[0], nil)
+			fromClone := false
+			for v := range sl {
+				if call, ok := v.(*ssa.Call); ok && call.Call.StaticCallee() == clone {
+					fromClone = true
+				}
+				if v == ssa.Value(fn.Params[0]) {
+					okRet = false
+				}
+			}
+			if !fromClone {
+				okRet = false
+			}
+		}
+		c.Check(okRet, R, name+"#returns-clone", fn.Pos(), "returns e.clone()", "returns the receiver itself or a value not derived from e.clone(): configuring mutates a shared extractor")
+		ws := eff.WritesThrough(fn, 0)
+		if len(ws) > 0 {
+			c.Viol(R, name+"#receiver-writes", fn.Pos(), "writes through the receiver: "+strings.Join(ws, "; "))
+		} else {
+			c.Ok(R, name+"#receiver-writes", fn.Pos(), "no write through the receiver")
+		}
+	}
+}
+
+// nonTerminal lists the documented operations that leave the reader open.
+var nonTerminal = map[string]string{
+	"PageCount":        "documented: does NOT close the reader",
+	"IsCharacterLevel": "documented: the reader remains open",
+	"IsMultiColumn":    "documented: the reader remains open",
+	"Close":            "is the closer",
+}
+
+// R10.4
+func ruleTerminalClose(c *eng.Ctx) {
+	const R = "R10.4-TERMINAL-CLOSE"
+	c.Rule(R, "every exported *Extractor method that calls ensureReader (except the documented non-terminal table) has `defer e.Close()` on every path from the success edge of ensureReader to any return", 14, 0)
+	ensure := c.P.Func("tabula.(*Extractor).ensureReader")
+	closeFn := c.P.Func("tabula.(*Extractor).Close")
+	if ensure == nil || closeFn == nil {
+		c.Undec(R, "anchors", token.NoPos, "ensureReader / Close not found")
+		return
+	}
+	for _, fn := range extractorMethods(c.P) {
+		if !isExported(fn.Name()) {
+			continue
+		}
+		var calls []ssa.CallInstruction
+		for _, ci := range eng.Calls(fn, false, func(string, ssa.CallInstruction) bool { return true }) {
+			if ci.Common().StaticCallee() == ensure {
+				calls = append(calls, ci)
+			}
+		}
+		if len(calls) == 0 {
+			continue
+		}
+		name := eng.FuncName(fn)
+		if why, ok := nonTerminal[fn.Name()]; ok {
+			c.Ok(R, name, fn.Pos(), "non-terminal: "+why)
+			continue
+		}
+		hasDeferClose := func(b *ssa.BasicBlock) bool {
+			for _, in := range b.Instrs {
+				if d, ok := in.(*ssa.Defer); ok && d.Call.StaticCallee() == closeFn {
+					return true
+				}
+			}
+			return false
+		}
+		bad := ""
+		for _, ci := range calls {
+			// success edge: the false edge of `err != nil` on the call's result
+			blk := ci.Block()
+			var succ *ssa.BasicBlock
+			if ifi, ok := blk.Instrs[len(blk.Instrs)-1].(*ssa.If); ok {
+				if f, ok := eng.EdgeFact(eng.Edge{From: blk, Succ: 1}); ok {
+					if op, x, y, ok := f.Cmp(); ok && op == token.EQL && (x == ci.Value() || y == ci.Value()) {
+						succ = blk.Succs[1]
+					}
+				}
+				if f, ok := eng.EdgeFact(eng.Edge{From: blk, Succ: 0}); ok && succ == nil {
+					if op, x, y, ok := f.Cmp(); ok && op == token.EQL && (x == ci.Value() || y == ci.Value()) {
+						succ = blk.Succs[0]
+					}
+				}
+				_ = ifi
+			}
+			if succ == nil {
+				bad = "result of ensureReader is not tested directly after the call"
+				break
+			}
+			reach := eng.ReachableBlocks([]*ssa.BasicBlock{succ}, hasDeferClose)
+			for b := range reach {
+				if len(b.Instrs) == 0 {
+					continue
+				}
+				if r, ok := b.Instrs[len(b.Instrs)-1].(*ssa.Return); ok {
+					bad = fmt.Sprintf("return at %s is reachable after the reader was opened without `defer e.Close()` having run: the file handle stays open", c.P.Pos(r.Pos()))
+				}
+			}
+		}
+		if bad != "" {
+			c.Viol(R, name, fn.Pos(), bad)
+		} else {
+			c.Ok(R, name, fn.Pos(), "defer e.Close() covers every exit after ensureReader succeeded")
+		}
+	}
+}
+
+// R10.5
+var acquirers = map[string]bool{"os.Open": true, "os.Create": true, "os.OpenFile": true, "archive/zip.OpenReader": true}
+
+func ruleResourcePairing(c *eng.Ctx) {
+	const R = "R10.5-RES-PAIR"
+	c.Rule(R, "every os.Open/os.Create/zip.OpenReader handle is closed (call or defer) on each path to an error return, and on success is returned, stored in the returned owner or covered by a defer; Close methods reset the state they test", 12, 1)
+	for _, fn := range c.P.ModuleFuncs() {
+		for _, ci := range eng.Calls(fn, false, func(n string, _ ssa.CallInstruction) bool { return acquirers[n] }) {
+			call, ok := ci.(*ssa.Call)
+			if !ok {
+				continue
+			}
+			key := fmt.Sprintf("%s#%s", eng.FuncName(fn), eng.CalleeName(ci))
+			var handle ssa.Value
+			for _, r := range *call.Referrers() {
+				if ex, ok := r.(*ssa.Extract); ok && ex.Index == 0 {
+					handle = ex
+				}
+			}
+			if handle == nil {
+				c.Viol(R, key, call.Pos(), "handle result is discarded")
+				continue
+			}
+			// aliases of the handle: the value itself plus interface conversions of it
+			isHandle := func(v ssa.Value) bool {
+				for i := 0; i < 4 && v != nil; i++ {
+					if v == handle {
+						return true
+					}
+					switch x := v.(type) {
+					case *ssa.MakeInterface:
+						v = x.X
+					case *ssa.ChangeInterface:
+						v = x.X
+					case *ssa.ChangeType:
+						v = x.X
+					case *ssa.UnOp:
+						// load from a local the handle was stored into
+						if a, ok := x.X.(*ssa.Alloc); ok {
+							for _, r := range *a.Referrers() {
+								if st, ok := r.(*ssa.Store); ok && st.Addr == a && st.Val == handle {
+									return true
+								}
+							}
+						}
+						if fa, ok := x.X.(*ssa.FieldAddr); ok && fieldHoldsHandle(fa, handle) {
+							return true
+						}
+						return false
+					case *ssa.FieldAddr:
+						// address of the embedded Reader inside a *zip.ReadCloser
+						v = x.X
+					default:
+						return false
+					}
+				}
+				return false
+			}
+			closes := func(b *ssa.BasicBlock) bool {
+				for _, in := range b.Instrs {
+					cc, ok := in.(ssa.CallInstruction)
+					if !ok {
+						continue
+					}
+					com := cc.Common()
+					mname := ""
+					var recv ssa.Value
+					if com.IsInvoke() {
+						mname, recv = com.Method.Name(), com.Value
+					} else if f := com.StaticCallee(); f != nil && f.Signature.Recv() != nil && len(com.Args) > 0 {
+						mname, recv = f.Name(), com.Args[0]
+					}
+					if mname == "Close" && isHandle(recv) {
+						return true
+					}
+				}
+				return false
+			}
+			// does the handle escape into an owner (stored into a struct field / returned)?
+			escapes := false
+			var walkRefs func(v ssa.Value, d int)
+			walkRefs = func(v ssa.Value, d int) {
+				if d > 3 || v.Referrers() == nil {
+					return
+				}
+				for _, r := range *v.Referrers() {
+					switch x := r.(type) {
+					case *ssa.Store:
+						if x.Val == v {
+							if _, isField := x.Addr.(*ssa.FieldAddr); isField {
+								escapes = true
+							}
+						}
+					case *ssa.Return:
+						escapes = true
+					case *ssa.MakeInterface:
+						walkRefs(x, d+1)
+					case *ssa.ChangeType:
+						walkRefs(x, d+1)
+					case ssa.CallInstruction:
+						// passed to a constructor that keeps it (e.g. NewReader(file))
+						if f := x.Common().StaticCallee(); f != nil && eng.InModule(f) && strings.HasPrefix(f.Name(), "New") {
+							escapes = true
+						}
+					}
+				}
+			}
+			walkRefs(handle, 0)
+			// success successor of the `err != nil` test on the acquisition
+			start := call.Block().Succs
+			reach := eng.ReachableBlocks(start, closes)
+			var leaks []string
+			for b := range reach {
+				if len(b.Instrs) == 0 {
+					continue
+				}
+				r, ok := b.Instrs[len(b.Instrs)-1].(*ssa.Return)
+				if !ok {
+					continue
+				}
+				// the failing-acquisition return itself has no handle to close
+				if acquisitionFailed(b, call) {
+					continue
+				}
+				isErr := false
+				if n := len(r.Results); n > 0 && eng.IsErrorType(r.Results[n-1].Type()) {
+					nn, known := eng.ErrValueNonNil(r.Results[n-1])
+					isErr = !known || nn
+					if known && !nn {
+						isErr = false
+					}
+				}
+				if isErr {
+					leaks = append(leaks, "error return at "+c.P.Pos(r.Pos())+" without closing the handle")
+				} else if !escapes {
+					leaks = append(leaks, "return at "+c.P.Pos(r.Pos())+" neither closes the handle nor hands it to an owner")
+				}
+			}
+			if len(leaks) > 0 {
+				c.Viol(R, key, call.Pos(), strings.Join(leaks, "; "))
+			} else {
+				c.Ok(R, key, call.Pos(), "closed on every error path; owned or deferred on success")
+			}
+		}
+	}
+	// Close methods reset what they test
+	for _, spec := range []struct {
+		fn, field string
+		mustClear bool
+	}{
+		{"tabula.(*Extractor).Close", "ownsReader", true},
+		{"docx.(*Reader).Close", "zipReader", true}, {"odt.(*Reader).Close", "zipReader", true}, {"xlsx.(*Reader).Close", "zipReader", true},
+		{"pptx.(*Reader).Close", "zipReader", true},
+		// epubdoc keeps its handle after Close (a second Reader.Close returns the zip package's
+		// "already closed" error, it does not crash); the Extractor never reaches it twice
+		// because Extractor.Close drops its epubReader. Only the nil test is required here.
+		{"epubdoc.(*Reader).Close", "zr", false},
+	} {
+		fn := c.P.Func(spec.fn)
+		if fn == nil {
+			c.Undec(R, spec.fn, token.NoPos, "anchor not found")
+			continue
+		}
+		tested, cleared := false, false
+		eng.Instrs(fn, false, func(in ssa.Instruction) {
+			switch x := in.(type) {
+			case *ssa.Store:
+				if fr, ok := eng.AsField(x.Addr); ok && fr.Field == spec.field {
+					if cst, ok := x.Val.(*ssa.Const); ok && (cst.Value == nil || cst.Value.ExactString() == "false") {
+						cleared = true
+					}
+				}
+			case *ssa.If:
+				sl := eng.Slice(x.Cond, nil)
+				for v := range sl {
+					if fr, ok := eng.AsField(v); ok && fr.Field == spec.field {
+						tested = true
+					}
+				}
+			}
+		})
+		c.Check(tested && (cleared || !spec.mustClear), R, spec.fn+"#idempotent", fn.Pos(), "tests and clears "+spec.field, "Close does not both test and clear "+spec.field+": a second Close closes the handle again")
+	}
+}
+
+func fieldHoldsHandle(fa *ssa.FieldAddr, handle ssa.Value) bool {
+	// some store in the function puts the handle into the same field of the same base
+	fn := fa.Parent()
+	found := false
+	eng.Instrs(fn, false, func(in ssa.Instruction) {
+		if st, ok := in.(*ssa.Store); ok && st.Val == handle {
+			if o, ok := st.Addr.(*ssa.FieldAddr); ok && o.Field == fa.Field && eng.SameValue(o.X, fa.X) {
+				found = true
+			}
+		}
+	})
+	return found
+}
+
+// acquisitionFailed: block b is only reached through the `err != nil` edge of the
+// acquisition call's own error result.
+func acquisitionFailed(b *ssa.BasicBlock, call *ssa.Call) bool {
+	var errv ssa.Value
+	for _, r := range *call.Referrers() {
+		if ex, ok := r.(*ssa.Extract); ok && ex.Index == 1 {
+			errv = ex
+		}
+	}
+	if errv == nil {
+		return false
+	}
+	m := eng.MustCross(b.Parent(), func(e eng.Edge) bool {
+		f, ok := eng.EdgeFact(e)
+		if !ok {
+			return false
+		}
+		op, x, y, ok := f.Cmp()
+		return ok && op == token.NEQ && ((x == errv && eng.IsNilConst(y)) || (y == errv && eng.IsNilConst(x)))
+	}, nil)
+	return m[b]
+}
+
+// R10.6
+func rulePageRange(c *eng.Ctx) {
+	const R = "R10.6-PAGE-RANGE"
+	c.Rule(R, "in resolvePages every requested page number appended to the result passed `p < 1 || p > pageCount` on its false edge and the seen-set test; the result is sorted before it is returned", 4, 0)
+	fn := c.P.Func("tabula.(*Extractor).resolvePages")
+	if fn == nil {
+		c.Undec(R, "tabula.(*Extractor).resolvePages", token.NoPos, "anchor not found")
+		return
+	}
+	name := eng.FuncName(fn)
+	// appends of values derived from options.pages elements
+	fromRequested := func(v ssa.Value) (ssa.Value, bool) {
+		sl := eng.Slice(v, nil)
+		for w := range sl {
+			if ia, ok := w.(*ssa.IndexAddr); ok {
+				if fr, ok := eng.LoadOfField(ia.X); ok && fr.Field == "pages" {
+					return ia, true
+				}
+			}
+		}
+		return nil, false
+	}
+	var pageCount ssa.Value
+	for _, ci := range eng.Calls(fn, false, func(n string, _ ssa.CallInstruction) bool { return strings.HasSuffix(n, ").PageCount") }) {
+		for _, r := range *ci.Value().Referrers() {
+			if ex, ok := r.(*ssa.Extract); ok && ex.Index == 0 {
+				pageCount = ex
+			}
+		}
+	}
+	if pageCount == nil {
+		c.Viol(R, name+"#pageCount", fn.Pos(), "page count is not obtained from the reader")
+		return
+	}
+	nApp := 0
+	for _, ci := range eng.Calls(fn, false, func(n string, _ ssa.CallInstruction) bool { return n == "builtin:append" }) {
+		args := ci.Common().Args
+		if len(args) < 2 {
+			continue
+		}
+		if _, ok := fromRequested(args[1]); !ok {
+			continue
+		}
+		nApp++
+		blk := ci.Block()
+		isP := func(v ssa.Value) bool {
+			_, ok := fromRequested(v)
+			if !ok {
+				return false
+			}
+			// must be the raw requested number (not p-1): a load of the element
+			u, ok := v.(*ssa.UnOp)
+			return ok && u.Op == token.MUL
+		}
+		lower := eng.GuardedBy(fn, blk, func(f eng.Fact) bool {
+			op, x, y, ok := f.Cmp()
+			if !ok {
+				return false
+			}
+			if k, isC := eng.ConstInt(y); isC && isP(x) && ((op == token.GEQ && k == 1) || (op == token.GTR && k == 0)) {
+				return true
+			}
+			if k, isC := eng.ConstInt(x); isC && isP(y) && ((op == token.LEQ && k == 1) || (op == token.LSS && k == 0)) {
+				return true
+			}
+			return false
+		})
+		upper := eng.GuardedBy(fn, blk, func(f eng.Fact) bool {
+			op, x, y, ok := f.Cmp()
+			if !ok {
+				return false
+			}
+			return (isP(x) && y == pageCount && op == token.LEQ) || (isP(y) && x == pageCount && op == token.GEQ)
+		})
+		seen := eng.GuardedBy(fn, blk, func(f eng.Fact) bool {
+			// !seen[k]: negative fact on a map lookup (plain or comma-ok)
+			if f.Pos {
+				return false
+			}
+			if _, ok := f.Cond.(*ssa.Lookup); ok {
+				return true
+			}
+			if ex, ok := f.Cond.(*ssa.Extract); ok {
+				_, isL := ex.Tuple.(*ssa.Lookup)
+				return isL
+			}
+			return false
+		})
+		c.Check(lower, R, name+"#lower-bound", ci.Pos(), "p >= 1 holds where the page is appended", "a requested page number below 1 reaches the result (no `p < 1` rejection on every path)")
+		c.Check(upper, R, name+"#upper-bound", ci.Pos(), "p <= pageCount holds where the page is appended", "a requested page number beyond the document reaches the result (no `p > pageCount` rejection on every path)")
+		c.Check(seen, R, name+"#dedup", ci.Pos(), "append is guarded by the seen-set", "duplicates are not removed before appending")
+	}
+	if nApp == 0 {
+		c.Viol(R, name+"#append", fn.Pos(), "no append of a requested page number found")
+	}
+	// sort dominates the final return of the requested branch
+	sorts := eng.Calls(fn, false, func(n string, _ ssa.CallInstruction) bool {
+		return n == "sort.Ints" || n == "slices.Sort"
+	})
+	okSort := len(sorts) > 0
+	c.Check(okSort, R, name+"#sorted", fn.Pos(), "result is sorted", "result is no longer sorted: pages come out in request order, not ascending page order")
+}
+
+// R10.7
+func rulePageStamp(c *eng.Ctx) {
+	R := "R10.7-PAGE-STAMP"
+	c.Rule(R, "in Extractor.Document the store to Page.Number that survives is the one derived from the source page index: no store to Number may be followed by AddPage (which overwrites it), and one store after AddPage must derive from the resolved page index", 2, 0)
+	fn := c.P.Func("tabula.(*Extractor).Document")
+	if fn == nil {
+		c.Undec(R, "tabula.(*Extractor).Document", token.NoPos, "anchor not found")
+		return
+	}
+	name := eng.FuncName(fn)
+	resolve := c.P.Func("tabula.(*Extractor).resolvePages")
+	var addCalls []ssa.CallInstruction
+	for _, ci := range eng.Calls(fn, false, func(n string, _ ssa.CallInstruction) bool { return n == "model.(*Document).AddPage" }) {
+		addCalls = append(addCalls, ci)
+	}
+	// the PDF branch: AddPage calls whose page argument has a Number store derived from resolvePages
+	good, dead := false, false
+	var pos token.Pos = fn.Pos()
+	eng.Instrs(fn, false, func(in ssa.Instruction) {
+		st, ok := in.(*ssa.Store)
+		if !ok {
+			return
+		}
+		fr, ok := eng.AsField(st.Addr)
+		if !ok || fr.Field != "Number" || !strings.HasSuffix(fr.Struct, "model.Page") {
+			return
+		}
+		fromResolve := false
+		for v := range eng.Slice(st.Val, nil) {
+			if call, ok := v.(*ssa.Call); ok && call.Call.StaticCallee() == resolve && resolve != nil {
+				fromResolve = true
+			}
+		}
+		for _, ac := range addCalls {
+			if len(ac.Common().Args) < 2 || !eng.SameValue(ac.Common().Args[1], fr.Base) {
+				continue
+			}
+			if eng.InstrDominates(st, ac) {
+				dead = true
+				pos = st.Pos()
+			}
+			if eng.InstrDominates(ac, st) && fromResolve {
+				good = true
+			}
+		}
+	})
+	if dead {
+		c.Viol(R, name+"#Number", pos, "Page.Number is stamped before AddPage, which overwrites it with the insertion index: a page selection reports page 1,2,… instead of the source page")
+	} else if !good {
+		c.Viol(R, name+"#Number", pos, "no store to Page.Number after AddPage that derives from the resolved source page index")
+	} else {
+		c.Ok(R, name+"#Number", pos, "source page number is stamped after AddPage")
+	}
+	if add := c.P.Func("model.(*Document).AddPage"); add != nil {
+		overwrites := false
+		eng.Instrs(add, false, func(in ssa.Instruction) {
+			if st, ok := in.(*ssa.Store); ok {
+				if fr, ok := eng.AsField(st.Addr); ok && fr.Field == "Number" {
+					overwrites = true
+				}
+			}
+		})
+		c.Note("model.(*Document).AddPage overwrites Page.Number: %v", overwrites)
+		c.Ok(R, "model.(*Document).AddPage", add.Pos(), fmt.Sprintf("AddPage assigns Number by insertion order: %v", overwrites))
+	}
+	_ = types.Typ
+}
